@@ -97,11 +97,60 @@ def library_exception_report(exc, item):
     return rep
 
 
+class TaskTimeout(BaseException):
+    """One task used more CPU time than the whole check needs on the unchanged tree: the
+    library does not terminate (or has become absurdly slow) on an input of the sweep."""
+
+
+TASK_CPU_LIMIT = float(os.environ.get('VERIF_TASK_CPU_LIMIT', '0') or 0)
+
+
+def set_task_limit(seconds):
+    global TASK_CPU_LIMIT
+    if not os.environ.get('VERIF_TASK_CPU_LIMIT'):
+        TASK_CPU_LIMIT = float(seconds)
+
+
+def _on_timer(signum, frame):
+    raise TaskTimeout('no result after %d s of CPU time' % TASK_CPU_LIMIT)
+
+
+def arm_timer():
+    """CPU-time watchdog of the calling process (ITIMER_PROF counts user + system time of this
+    process only, so a loaded machine does not trip it).  TaskTimeout is a BaseException: the
+    drivers' per-case `except Exception` clauses do not swallow it, the whole task ends."""
+    if TASK_CPU_LIMIT > 0:
+        import signal
+        signal.signal(signal.SIGPROF, _on_timer)
+        signal.setitimer(signal.ITIMER_PROF, TASK_CPU_LIMIT, 0)
+
+
+def disarm_timer():
+    if TASK_CPU_LIMIT > 0:
+        import signal
+        signal.setitimer(signal.ITIMER_PROF, 0, 0)
+
+
 def _call(args):
     func, item = args
     try:
         env.scratch_dir()
-        return ('ok', func(item))
+        arm_timer()
+        try:
+            return ('ok', func(item))
+        finally:
+            disarm_timer()
+    except TaskTimeout as e:
+        disarm_timer()
+        if getattr(func, 'returns_report', True):
+            rep = Report()
+            sig = 'task-timeout'
+            rep.violation(sig, 'a task of the sweep did not finish: %s (every task needs a small '
+                          'fraction of that on the unchanged tree): the library does not '
+                          'terminate on one of its inputs' % e,
+                          dict(task=jsonable(item), sig=sig))
+            return ('ok', rep)
+        return ('err', 'TaskTimeout in a worker that does not return a report: %s' % e)
     except BaseException as e:  # noqa
         if getattr(func, 'returns_report', True) and isinstance(e, Exception):
             rep = library_exception_report(e, item)
@@ -233,8 +282,20 @@ def finish(prop, level, tier, rep, t0, coverage, assumptions, replay_fn=None):
     for v in new:
         if replay_fn is not None:
             try:
-                r1 = replay_fn(v['case'])
-                r2 = replay_fn(v['case'])
+                arm_timer()
+                try:
+                    r1 = replay_fn(v['case'])
+                finally:
+                    disarm_timer()
+                arm_timer()
+                try:
+                    r2 = replay_fn(v['case'])
+                finally:
+                    disarm_timer()
+            except TaskTimeout as e:
+                # the replay itself runs into the limit: the non-termination reproduces
+                disarm_timer()
+                r1 = r2 = 'no result within the CPU limit (%s)' % e
             except Exception:  # noqa
                 raise HarnessError('replay crashed for %r:\n%s' % (
                     v['signature'], traceback.format_exc()))
